@@ -2,6 +2,7 @@
 import Driver.Proto
 import Driver.Quad
 import Driver.Sing
+import Driver.Asm
 import Driver.Alg
 import Driver.Solve
 import Driver.Color
@@ -18,6 +19,7 @@ def step (line : String) : String :=
   let toks := (line.splitOn " ").filter (· ≠ "")
   match toks with
   | "singpairs" :: _ => Driver.Sing.handle toks
+  | "asmdense" :: _ => Driver.Asm.handle toks
   | "tri" :: _ | "gauss" :: _ | "duffy" :: _ | "remapv" :: _ | "remape" :: _ | "nqp" :: _ => Driver.Quad.handle toks
   | "topo" :: _ | "geom" :: _ | "refineverts" :: _ | "baryverts" :: _ | "union" :: _ | "segments" :: _ | "childdoms" :: _ => Driver.Topo.handle toks
   | "ioexport" :: _ | "ioimport" :: _ | "iotransform" :: _ => Driver.IOMap.handle toks
